@@ -503,6 +503,34 @@ def gen_rule_tables(repo, out):
                     "  let v_transitions_to_quiescent_state : Int := ((List.count %s v_values : Nat) : Int)\n  (%s, %s)"
                     % (tr0.P(nv), trc.P(c.args[0]), tr.P(num), tr.P(den)))
         attempt("walkLambda", walk_lambda)
+    def table_rule():
+        fn = find(tree.body, ast.FunctionDef, "table_rule")
+        if [x.arg for x in fn.args.args] != ["neighbourhood", "table"]:
+            raise Unsupported("parameters of table_rule")
+        body = [st for st in fn.body if not (isinstance(st, ast.Expr) and isinstance(st.value, ast.Constant))]
+        if len(body) != 3:
+            raise Unsupported("table_rule has not exactly three statements")
+        s1, s2, s3 = body
+        # 1. key = ''.join(str(x) for x in neighbourhood): the neighbourhood's digit string (digits = states, k <= 10)
+        if not (isinstance(s1, ast.Assign) and isinstance(s1.targets[0], ast.Name) and ast.unparse(s1.value) == "''.join((str(x) for x in neighbourhood))"):
+            raise Unsupported("first statement is not key = ''.join(str(x) for x in neighbourhood)")
+        key = s1.targets[0].id
+        # 2. if not key in table: raise ...      (also: if key not in table)
+        ok = isinstance(s2, ast.If) and not s2.orelse and len(s2.body) == 1 and isinstance(s2.body[0], ast.Raise) \
+            and ast.unparse(s2.test) in ("not %s in table" % key, "%s not in table" % key)
+        if not ok:
+            raise Unsupported("second statement is not the membership test raising an error")
+        # 3. return table[key]
+        if not (isinstance(s3, ast.Return) and ast.unparse(s3.value) == "table[%s]" % key):
+            raise Unsupported("third statement is not return table[key]")
+        return ("/-- `table_rule` (rule_tables.py), translated statement by statement: the table is the list of its (key, value) items, a key\n"
+                "    the list of its digits; `k in table` = a lookup that succeeds, `table[k]` = the lookup (`none` = `KeyError`). -/\n"
+                "def tableRule (v_neighbourhood : List Int) (v_table : List (List Int × Int)) : Option Int := do\n"
+                "  let v_%s : List Int := v_neighbourhood\n"
+                "  if (!(List.lookup v_%s v_table).isSome) then none\n"
+                "  List.lookup v_%s v_table" % (key, key, key))
+    if rrt is not None:
+        attempt("tableRule", table_rule)
     emit(out, "RuleTables.lean", parts, status, "Cpl.Gen.RuleTables")
     return status
 
